@@ -246,8 +246,17 @@ def r17_6(ctx, layers):
             r.analysed(f)
             gate(r, f, L.short)
         # consumers of the regex-tree trace: children / stored routes only under `matched`
-        for key in ("router::request_matcher::host::tree_trace_to_trace", "router::request_matcher::path_and_query::tree_trace_to_trace"):
-            f = F.fn(key)
+        for key, owner in (("router::request_matcher::host::tree_trace_to_trace", "router::request_matcher::host::HostMatcher"), ("router::request_matcher::path_and_query::tree_trace_to_trace", "router::request_matcher::path_and_query::PathAndQueryMatcher")):
+            f = F.fn(key, required=False)
+            if f is None:
+                # found by role: the function the layer's trace() calls with the regex-tree trace
+                cg = F.callgraph()
+                cands = [F.fns[p] for p in sorted(cg.edges.get(F.method(owner, "trace").path, ())) if p in F.fns]
+                cands = [g for g in cands if not g.is_closure and any("regex_radix_tree::trace::Trace" in g.local_ty(i).get("adts", ()) for i in range(1, g.argc + 1))
+                         and any(c.key() == "router::trace::Trace::new" for _, _, c in g.calls() if c is not None)]
+                if len(cands) != 1:
+                    raise MissingAnchor("consumer of the regex-tree trace in %s::trace: %d candidates" % (owner, len(cands)))
+                f = cands[0]
             r.analysed(f)
             s = Sym(f, copies=True)
             bad = []
@@ -277,7 +286,8 @@ def r17_6(ctx, layers):
                  "routes / child traces under a regex-tree node are reported only when the node matched" if not bad else "; ".join(sorted(set(bad))))
         # the tree itself: Node::trace descends only when the node regex matched, with the same predicate as find
         nt = F.method("regex_radix_tree::node::Node", "trace")
-        nf = F.method("regex_radix_tree::node::Node", "find")
+        from .c08 import traversal_roles
+        nf = traversal_roles(F, "find")[2]
         r.analysed(nt, nf)
         for f in (nt, nf):
             s = Sym(f, copies=True)
@@ -293,7 +303,7 @@ def r17_6(ctx, layers):
                         if not any(a[0] == "call" and a[1] == "regex::LazyRegex::is_match" and v == 1 for a, v in p.conds) and not any(a[0] == "call" and a[1] == "regex::LazyRegex::is_match" for a, v in []):
                             # `matched` may be held in a variable: accept a cond on the call value
                             ok = ok and any(mentions(a, lambda x: x[0] == "call" and x[1] == "regex::LazyRegex::is_match") and v == 1 for a, v in p.conds)
-            r.ob("gating:Node::%s" % f.name, ok and n == 1, f.site, "children are visited only when the node's own regex matched (LazyRegex::is_match)")
+            r.ob("gating:Node::%s" % ("trace" if f is nt else "find"), ok and n == 1, f.site, "children are visited only when the node's own regex matched (LazyRegex::is_match)")
     ctx.run_rule("R17.6", "unmatched branches of the trace carry no routes", body, floor=10)
 
 
